@@ -40,17 +40,117 @@ def load_vocab():
     return {}
 
 
+def class_attrs(cls_node):
+    """[(attribute, source of the first value assigned to it or None)] in order of first store (constructor first)."""
+    out, seen = [], set()
+    fns = [f for f in cls_node.body if isinstance(f, ast.FunctionDef)]
+    fns.sort(key=lambda f: (f.name != "__init__",))
+    for f in fns:
+        for n in ast.walk(f):
+            tg = []
+            if isinstance(n, ast.Assign):
+                tg = [(t, n.value) for t in n.targets]
+            elif isinstance(n, (ast.AugAssign, ast.AnnAssign)):
+                tg = [(n.target, getattr(n, "value", None))]
+            for t, v in tg:
+                for x in ([t] if not isinstance(t, (ast.Tuple, ast.List)) else t.elts):
+                    if isinstance(x, ast.Attribute) and isinstance(x.value, ast.Name) and x.value.id == "self" and x.attr not in seen:
+                        seen.add(x.attr)
+                        out.append([x.attr, src(v) if (v is not None and x is t) else None])
+    return out
+
+
 def build_vocab(trees):
     out = {}
     for file, tree in trees.items():
-        ent = {"classes": {}, "functions": {}}
+        ent = {"classes": {}, "functions": {}, "attrs": {}, "params": {}}
         for n in tree.body:
+            if isinstance(n, ast.ClassDef):
+                ent["attrs"][n.name] = class_attrs(n)
+                ent["params"][n.name] = {f.name: [a.arg for a in f.args.args] for f in n.body if isinstance(f, ast.FunctionDef)}
             if isinstance(n, ast.ClassDef):
                 ent["classes"][n.name] = {f.name: sorted(local_names(f)) for f in n.body if isinstance(f, ast.FunctionDef)}
             elif isinstance(n, ast.FunctionDef):
                 ent["functions"][n.name] = sorted(local_names(n))
         out[file] = ent
     return out
+
+
+def undo_renames(trees, vocab):
+    """Consistent renamings relative to the baseline vocabulary are undone on the analysed copy:
+    * a class lost attribute `a` and gained attribute `b` (matched by the value first assigned to it, else by position when as
+      many were lost as gained): every `.b` in that file becomes `.a`;
+    * a class lost method `m` and gained method `m2` with the same parameter list, and `m2` is the only such candidate: the
+      definition and every call `.m2(..)` in the analysed packages become `m`.
+    Alpha-renaming is semantics-preserving whatever the match (the library uses no reflection: R14-DYN), so a wrong match can
+    only make a rule fail to recognise a role, never hide a violation."""
+    log = []
+    meth_map = {}
+    for file, tree in trees.items():
+        v = vocab.get(file)
+        if not v or "attrs" not in v:
+            continue
+        amap = {}
+        for c in tree.body:
+            if not isinstance(c, ast.ClassDef) or c.name not in v["attrs"]:
+                continue
+            base = [tuple(x) for x in v["attrs"][c.name]]
+            cur = [tuple(x) for x in class_attrs(c)]
+            bnames, cnames = [a for a, _ in base], [a for a, _ in cur]
+            missing = [(a, i) for a, i in base if a not in cnames]
+            new = [(a, i) for a, i in cur if a not in bnames]
+            pairs = []
+            for a, init in list(missing):
+                cands = [b for b, bi in new if bi is not None and bi == init]
+                if init is not None and len(cands) == 1 and sum(1 for a2, i2 in missing if i2 == init) == 1:
+                    pairs.append((cands[0], a))
+                    new = [(b, bi) for b, bi in new if b != cands[0]]
+                    missing = [(a2, i2) for a2, i2 in missing if a2 != a]
+            if missing and len(missing) == len(new):
+                pairs += [(b, a) for (a, _), (b, _) in zip(missing, new)]
+            for b, a in pairs:
+                if b in amap and amap[b] != a:
+                    continue
+                amap[b] = a
+            # methods
+            bm = v["params"].get(c.name, {})
+            cm = {f.name: [x.arg for x in f.args.args] for f in c.body if isinstance(f, ast.FunctionDef)}
+            lost = [m for m in bm if m not in cm]
+            gained = [m for m in cm if m not in bm]
+            for m in lost:
+                cands = [g for g in gained if cm[g] == bm[m] or len(cm[g]) == len(bm[m])]
+                exact = [g for g in cands if cm[g] == bm[m]]
+                pick = exact if len(exact) == 1 else (cands if len(cands) == 1 and len(lost) == 1 else [])
+                if len(pick) == 1 and pick[0] not in meth_map:
+                    meth_map[pick[0]] = m
+                    gained.remove(pick[0])
+        if amap:
+            for n in ast.walk(tree):
+                if isinstance(n, ast.Attribute) and n.attr in amap:
+                    n.attr = amap[n.attr]
+                elif isinstance(n, ast.keyword) and False:
+                    pass
+            log.append("%s: attributes renamed back %s" % (file, sorted(amap.items())))
+    # the new name must belong to the renamed class only (every `.g` in the packages is renamed): not a baseline name of any
+    # class and defined exactly once now
+    count = {}
+    for t in trees.values():
+        for c in t.body:
+            if isinstance(c, ast.ClassDef):
+                for f in c.body:
+                    if isinstance(f, ast.FunctionDef):
+                        count[f.name] = count.get(f.name, 0) + 1
+    baseline_names = {m for v in vocab.values() for ms in v.get("params", {}).values() for m in ms}
+    meth_map = {g: m for g, m in meth_map.items() if count.get(g) == 1 and g not in baseline_names}
+    if meth_map:
+        for t in trees.values():
+            for n in ast.walk(t):
+                if isinstance(n, ast.Attribute) and n.attr in meth_map:
+                    n.attr = meth_map[n.attr]
+                elif isinstance(n, ast.FunctionDef) and n.name in meth_map:
+                    n.name = meth_map[n.name]
+        log.append("methods renamed back %s" % sorted(meth_map.items()))
+    return log
 
 
 def local_names(fn):
